@@ -14,7 +14,7 @@ pub fn def() -> CheckDef {
         meta: CheckMeta {
             id: "C02",
             level: "fault_enumeration",
-            rule: "generated histories (small and large transactions, bucket deletes, growth from a 4-page file, page reuse, and histories whose free list spans several pages: a few hundred page-sized values deleted at once, then small commits; in 5 of 16 histories every write transaction is accompanied by a short-lived reader, open when the writer begins and closed before its commit or right after its begin) are executed by a worker process under the LD_PRELOAD I/O shim, which logs every write (offset, bytes), sync and file size on the database descriptor, with markers around every commit. For every group of writes between two completed syncs the analyser synthesises crash images on a scratch file: every subset of the unsynced writes (exhaustive up to 10 writes; above: none/all, singletons, complements, prefixes = process kill, suffixes, header-only, data-only, seeded random subsets), each write additionally torn at 512-byte sectors (prefix lost / tail lost / seeded sector subset) and header writes at 8-byte word granularity (every word prefix, every single word missing, every single word alone, seeded word subsets), with the file-size change durable or lost. Oracle per image: the independent parser says structurally sound and shows exactly S_{i-1} or S_i (exactly S_i once commit i has returned), and reopening through the public API succeeds and dumps the same. An evaluation is one distinct image (by content). Non-trivial = image with at least one but not all writes of its group applied, or a torn write.",
+            rule: "generated histories (small and large transactions, bucket deletes, growth from a 4-page file, page reuse, histories whose free list spans several pages: a few hundred page-sized values deleted at once, then small commits; histories that resize one value so that its leaf is exactly 2-4 pages long or one byte off; in 5 of 16 histories every write transaction is accompanied by a short-lived reader, open when the writer begins and closed before its commit or right after its begin) are executed by a worker process under the LD_PRELOAD I/O shim, which logs every write (offset, bytes), sync and file size on the database descriptor, with markers around every commit. For every group of writes between two completed syncs the analyser synthesises crash images on a scratch file: every subset of the unsynced writes (exhaustive up to 10 writes; above: none/all, singletons, complements, prefixes = process kill, suffixes, header-only, data-only, seeded random subsets), each write additionally torn at 512-byte sectors (prefix lost / tail lost / seeded sector subset) and header writes at 8-byte word granularity (every word prefix, every single word missing, every single word alone, seeded word subsets), with the file-size change durable or lost. Oracle per image: the independent parser says structurally sound and shows exactly S_{i-1} or S_i (exactly S_i once commit i has returned), and reopening through the public API succeeds and dumps the same. An evaluation is one distinct image (by content). Non-trivial = image with at least one but not all writes of its group applied, or a torn write.",
             assumptions: &[
                 "power-loss model: writes issued since the last completed fsync/fdatasync may be lost, reordered or torn at sector (header: word) granularity; a completed sync is durable including the file size",
                 "crashes during initial file creation are out of scope of the property",
@@ -227,9 +227,38 @@ pub fn big_freelist_history(seed: u64) -> HistoryCase {
     HistoryCase { cfg: Cfg { pagesize: 1024, num_pages: 32, strict: false, populate: false }, fresh_handles: false, txs, dance: 0 }
 }
 
+/// One key whose value is resized from transaction to transaction so that its leaf serialises to
+/// exactly 2-4 pages (or one byte more / less): allocation and reuse at exact page multiples.
+pub fn exactfit_history(seed: u64) -> HistoryCase {
+    let mut rng = Rng(seed);
+    let ps = 1024i64;
+    let put = |key: &[u8], v: ValSel| Op::Put { b: 0, k: KeySel::Lit(key.to_vec()), v, kk: 2, vk: 2 };
+    let mut txs = vec![TxSpec { kind: TxKind::Commit, ops: vec![Op::GetOrCreate { b: 0, k: KeySel::Lit(b"b".to_vec()), kk: 2 }] }];
+    for len in [500u32, 1500] {
+        txs.push(TxSpec { kind: TxKind::Commit, ops: vec![put(b"k", ValSel::Fill { len, seed: len as u8 })] });
+    }
+    for i in 0..(5 + seed % 4) {
+        // the first resized value is an exact fit; later ones vary
+        let k = if i == 0 { 2 + (seed / 8 % 3) as i64 } else { 2 + rng.below(3) as i64 };
+        let d = if i == 0 { 0 } else { [0i64, 0, 0, -1, 1][rng.below(5) as usize] };
+        let mut ops = vec![put(b"k", ValSel::Fit { total: (k * ps - 72 + d) as u32, seed: i as u8 })];
+        if rng.chance(1, 3) {
+            ops.push(put(b"z", ValSel::Fill { len: 30 + rng.below(300) as u32, seed: 1 }));
+        }
+        if rng.chance(1, 4) {
+            ops.insert(0, Op::Delete { b: 0, k: KeySel::Lit(b"k".to_vec()) });
+        }
+        txs.push(TxSpec { kind: TxKind::Commit, ops });
+    }
+    HistoryCase { cfg: Cfg { pagesize: 1024, num_pages: if seed % 2 == 0 { 32 } else { 4 }, strict: false, populate: false }, fresh_handles: false, txs, dance: 0 }
+}
+
 pub fn crash_history(seed: u64) -> HistoryCase {
     if seed % 8 == 5 {
         return big_freelist_history(seed);
+    }
+    if seed % 8 == 6 || seed % 16 == 3 {
+        return exactfit_history(seed);
     }
     let w = OpWeights { get: 1, read_misc: 1, seek_range: 1, bucket_delete: 3, delete_run: 6, ..OpWeights::default() };
     let strat = history(7, 16, w, (10, 1, 1, 1));
